@@ -242,3 +242,11 @@ def targets():
     from . import forwarding
     ts.append(forwarding.target_kk_wrappers())
     return ts
+
+
+_targets_before_purity = targets
+
+
+def targets():      # noqa: F811
+    from . import purity
+    return _targets_before_purity() + [purity.target_modules(["analysis/kramers_kronig/utility", "analysis/kramers_kronig/least_squares", "analysis/kramers_kronig/matrix_inversion", "analysis/kramers_kronig/cnls", "analysis/kramers_kronig/exploratory", "analysis/kramers_kronig/single"], "Kramers-Kronig modules keep no state between calls")]
